@@ -27,6 +27,7 @@ CONSTANTS
   Depth = 34
   AttBound = 100
   ViewKeep = {}
+  RealBackoff = FALSE
   GenBFS = FALSE
   AckAll = FALSE
   Weights <- mcWeights
